@@ -31,7 +31,17 @@ LEVEL_TEXT = ("Proof at the model level: for any component whose state is persis
 LEVEL_NOTE = ("Trusted: Coq kernel; the hand-written instances (C01/Ring.v, C07/Reducer.v, C04/Synapse.v, C03/Neuron.v, each tied "
               "by its own property's correspondence check); the harness tools/impl/c12_impl.py. Not in any state dictionary and "
               "therefore part of 'same configuration' in the theorems: constructor arguments, dt / inplace, the train/eval mode "
-              "of a neuron. Not modelled: layers, connections, trainers, monitors (covered by the resume runs only). Interpretation: a checkpoint taken before the first step (k=0) is loaded into a fresh "
+              "of a neuron. Not modelled: layers, connections, trainers, monitors (covered by the resume runs only); neither is any transient "
+              "state outside (configuration, persistent fields) - memoised getters, aliasing between a module and a loaded "
+              "checkpoint object: the model's load is a pure function of the dictionary, and that the real classes have no such "
+              "hidden state is what the implementation-side protocol tests (one deserialised checkpoint object restored twice and "
+              "deep-compared with a re-load of its bytes; every public getter and read-only method of every submodule exercised "
+              "in the target before the load and compared right after each restore and after every later step; train / eval and "
+              "adapt schedules incl. evaluation-mode futures; live state_dict() transfer with both instances stepped side by "
+              "side). Found by that protocol on the unchanged tree: the stale Accumulator.pos/.neg memo after a load (known finding "
+              "C12-accumulator-cache-stale-after-load; the signature is given only when the implementation side verified equal "
+              "non-zero pending-part counts, a getter read before the load and an observed value equal to the target's old "
+              "reduction) and the derived buffers of a freshly constructed MaxRateClassifier (repaired in /repo; no tolerance). Interpretation: a checkpoint taken before the first step (k=0) is loaded into a fresh "
               "target, later checkpoints into targets that have seen >=1 step (lazily shaped records must match). Known finding: "
               "pending (un-applied) accumulator parts are state-dict entries, so a checkpoint between trainer() and update() "
               "cannot be loaded into an instance holding a different number of pending parts.")
@@ -40,6 +50,8 @@ REDUCERS = ["NearestTraceReducer", "CumulativeTraceReducer", "PassthroughReducer
             "ScaledNearestTraceReducer", "ScaledCumulativeTraceReducer", "ConditionalNearestTraceReducer",
             "ConditionalCumulativeTraceReducer"]
 COMPONENTS = REDUCERS + c11.SYNAPSES + c11.NEURONS      # every class modelled in coq/C12/Components.v
+ADAPTIVE = ["ALIF", "GLIF2", "Izhikevich", "AdEx"]
+NEURON_CYCLE = c11.NEURONS + ADAPTIVE                   # adaptive classes twice as often (state beyond voltage / refrac)
 
 
 def coq_declared_fields():
@@ -140,7 +152,7 @@ def gen_cases(rng, n):
         elif kind in ("synapse", "neuron"):
             # a bare component of coq/C12/Components.v; no lazily shaped state, so ANY k into ANY prior (incl. 0) is in scope
             dt = rng.choice([1.0, 0.5, 1.3])
-            c = {"kind": kind, "cls": (c11.SYNAPSES if kind == "synapse" else c11.NEURONS)[(i // 8) % (4 if kind == "synapse" else 8)],
+            c = {"kind": kind, "cls": (c11.SYNAPSES if kind == "synapse" else NEURON_CYCLE)[(i // 8) % (4 if kind == "synapse" else len(NEURON_CYCLE))],
                  "shape": rng.choice([[3], [2, 2]]), "B": rng.choice([1, 2]), "dt": dt, "T": T, "k": k, "seed": seed,
                  "prior": rng.randint(0, 5)}
             if kind == "synapse":
@@ -161,7 +173,27 @@ def gen_cases(rng, n):
     return cases
 
 
+def protocol_options(rng, c):
+    """how the ONE deserialised checkpoint object is reused, which schedule of train / eval mode and adapt flags the source and
+    the targets follow, whether the target's last step before the load ran with adaptation frozen"""
+    c["second"] = rng.choice(["rewind", "third"])
+    c["second_full"] = rng.random() < 0.3
+    if rng.random() < 0.25:
+        c["transfer"] = "live"
+    c["modes"] = rng.choice(["train", "eval_after_k", "eval_after_k", "mixed", "mixed"])
+    c["target_frozen_last"] = rng.random() < 0.6
+    if c.get("cls") in ADAPTIVE or ((c.get("spec") or {}).get("neuron") or {}).get("cls") in ADAPTIVE:
+        # learned adaptation: prefer futures / targets that run with adaptation frozen (evaluation after training)
+        c["modes"] = rng.choice(["eval_after_k", "eval_after_k", "mixed"])
+        c["target_frozen_last"] = rng.random() < 0.8
+    return c
+
+
 def signature(c, r):
+    if r.get("what", "").endswith("restored_observer_differs") and r.get("stale_accumulator"):
+        # verified on the implementation side (stale_accumulator_evidence): only Accumulator.pos/.neg getters differ, equal non-zero
+        # numbers of pending parts in checkpoint and target, getter read before the load, observed value == the target's old memo
+        return {"kind": "accumulator_cache_stale_after_load"}
     if r.get("what") == "persistent_fields_differ":
         return {"kind": "persistent_fields_differ", "cls": r.get("cls") or c.get("cls") or (c.get("spec") or {}).get("cls")}
     if r.get("what") == "load_failed" and c.get("schedule") == "every3" and ("_pos" in r.get("detail", "") or "_neg" in r.get("detail", "")):
@@ -172,7 +204,7 @@ def signature(c, r):
 def run(ctx):
     rng = random.Random(ctx["seed"])
     n = 240 if ctx["tier"] == "quick" else 3000
-    cases = gen_cases(rng, n)
+    cases = [protocol_options(rng, c) for c in gen_cases(rng, n)]
     # tie of the component models' persistent projection to the code: every modelled class, every run
     cases = [{"kind": "fields", "cls": cls, "seed": rng.randrange(1 << 30), "delay": rng.choice([0.0, 2.0])} for cls in COMPONENTS] + cases
     # corpus: the known finding's witness always runs
@@ -201,11 +233,16 @@ def run(ctx):
     return {
         "evaluations": len(cases),
         "distinct_nontrivial": len({repr(c) for c, r in zip(cases, res) if r.get("events", 0) > 0}),
-        "rule": "seeded (component, configuration, run length T in 6..14, checkpoint step k in 0..T incl. both ends, target prior steps) cases; "
-                "checkpoint serialised with torch.save, loaded strictly into a differently initialised instance already run on other "
-                "data; non-trivial = the run produced spikes/observations",
+        "rule": "seeded (component, configuration, run length T in 6..14, checkpoint step k in 0..T incl. both ends, target prior steps, "
+                "train/eval + adapt schedule, reuse mode of the checkpoint object) cases; checkpoint serialised once with torch.save, "
+                "deserialised once, that one object loaded strictly into a differently initialised instance already run on other data "
+                "(all observers exercised), then a second time (rewind / third instance), object deep-compared with a re-load of the "
+                "bytes; all public getters and read-only methods compared right after each restore and after every later step; "
+                "non-trivial = the run produced spikes/observations",
         "samples": cases[1:3], "component_distribution": dict(dist),
         "k_distribution": dict(Counter("k=0" if c["k"] == 0 else ("k=T" if c["k"] == c["T"] else "0<k<T") for c in cases if "k" in c)),
+        "observers_per_case": dict(Counter(c["kind"] + ":" + str(r.get("observers", 0) // 10 * 10) + "+" for c, r in zip(cases, res) if r.get("ok") and c["kind"] != "fields")),
+        "protocol_distribution": dict(Counter((c.get("second", "-") + ("/full" if c.get("second_full") else "") + ("/live" if c.get("transfer") else "") + "/" + c.get("modes", "-")) for c in cases if c["kind"] != "fields")),
         "mismatches": mism, "oracle_failures": fails, "classes_with_field_tie": len(COMPONENTS), "traces_validated_against_impl": len(cases) - len(fails),
     }
 
